@@ -777,7 +777,7 @@ func c03OtherRejects(e *c03Env, which string) {
 
 const c03Chunk = 20000
 
-// c03Sweep writes the payloads lo..hi-1 (stride 1 or a seeded sample of `sample`) in the
+// c03Sweep writes the payloads lo..hi-1 (all, or a seeded sample of `sample`) in the
 // short form, every 8th also in the long form, and reads them back.
 func c03Sweep(r *fw.Rec, s *odUPCEAN, lo, hi, sample int) {
 	e := newC03Env(r)
@@ -788,44 +788,47 @@ func c03Sweep(r *fw.Rec, s *odUPCEAN, lo, hi, sample int) {
 	one := func(v int, k int) bool {
 		payload := odPad(v, s.payload)
 		full := s.full(payload)
-		content, form := payload, fmt.Sprint(s.payload)
+		contents := []string{payload} // every payload in the short form ...
 		if k%8 == 5 {
-			content, form = full, fmt.Sprint(s.payload+1)
+			contents = append(contents, full) // ... every 8th also with its check digit
 		}
-		data := map[string]interface{}{"symbology": s.name, "content": content, "height": 1, "width": 0}
-		m, err := w.Encode(content, s.format, 0, 1, nil)
-		if err != nil || m == nil {
-			r.Violation("model-mismatch", s.name+form+".write:rejects-acceptable-content", fmt.Sprintf("%s writer refused %s: %v", s.name, content, err), data)
-			return false
-		}
-		bmp, err := gozxing.NewBinaryBitmapFromImage(m)
-		if err != nil {
-			r.Violation("model-mismatch", s.name+form+".bitmap:error", fmt.Sprint(err), data)
-			return false
-		}
-		readers := []gozxing.Reader{rd}
-		labels := []string{"reader"}
-		if k%4 == 1 {
-			readers = append(readers, multi)
-			labels = append(labels, "multi+formats")
-		}
-		for i, x := range readers {
-			var h map[gozxing.DecodeHintType]interface{}
-			if i == 1 {
-				h = pf
+		for _, content := range contents {
+			form := fmt.Sprint(len(content))
+			data := map[string]interface{}{"symbology": s.name, "content": content, "height": 1, "width": 0}
+			m, err := w.Encode(content, s.format, 0, 1, nil)
+			if err != nil || m == nil {
+				r.Violation("model-mismatch", s.name+form+".write:rejects-acceptable-content", fmt.Sprintf("%s writer refused %s: %v", s.name, content, err), data)
+				return false
 			}
-			res, err := x.Decode(bmp, h)
+			bmp, err := gozxing.NewBinaryBitmapFromImage(m)
 			if err != nil {
-				r.Violation("model-mismatch", s.name+form+"."+labels[i]+":error"+c03Diag(m, s.pattern(full)), fmt.Sprintf("%s: %s of the written image of %s failed: %s %v (canonical content %s)", s.name, labels[i], content, odErrKind(err), err, full), data)
+				r.Violation("model-mismatch", s.name+form+".bitmap:error", fmt.Sprint(err), data)
 				return false
 			}
-			if res.GetText() != full {
-				r.Violation("model-mismatch", s.name+form+"."+labels[i]+":wrong-text"+c03Diag(m, s.pattern(full)), fmt.Sprintf("%s: %s of the written image of %s returned %s, canonical content is %s", s.name, labels[i], content, res.GetText(), full), data)
-				return false
+			readers := []gozxing.Reader{rd}
+			labels := []string{"reader"}
+			if k%4 == 1 {
+				readers = append(readers, multi)
+				labels = append(labels, "multi+formats")
 			}
-			if res.GetBarcodeFormat() != s.format {
-				r.Violation("model-mismatch", s.name+form+"."+labels[i]+":wrong-format", fmt.Sprintf("%s: %s of %s returned format %v", s.name, labels[i], content, res.GetBarcodeFormat()), data)
-				return false
+			for i, x := range readers {
+				var h map[gozxing.DecodeHintType]interface{}
+				if i == 1 {
+					h = pf
+				}
+				res, err := x.Decode(bmp, h)
+				if err != nil {
+					r.Violation("model-mismatch", s.name+form+"."+labels[i]+":error"+c03Diag(m, s.pattern(full)), fmt.Sprintf("%s: %s of the written image of %s failed: %s %v (canonical content %s)", s.name, labels[i], content, odErrKind(err), err, full), data)
+					return false
+				}
+				if res.GetText() != full {
+					r.Violation("model-mismatch", s.name+form+"."+labels[i]+":wrong-text"+c03Diag(m, s.pattern(full)), fmt.Sprintf("%s: %s of the written image of %s returned %s, canonical content is %s", s.name, labels[i], content, res.GetText(), full), data)
+					return false
+				}
+				if res.GetBarcodeFormat() != s.format {
+					r.Violation("model-mismatch", s.name+form+"."+labels[i]+":wrong-format", fmt.Sprintf("%s: %s of %s returned format %v", s.name, labels[i], content, res.GetBarcodeFormat()), data)
+					return false
+				}
 			}
 		}
 		return true
@@ -850,7 +853,7 @@ func c03Sweep(r *fw.Rec, s *odUPCEAN, lo, hi, sample int) {
 	r.TallyN("sweep_"+s.name+"_payloads_read_back", int64(n))
 	r.NontrivialH(odHash(fmt.Sprintf("sweep/%s/%d/%d", s.name, lo, sample)))
 	if lo == 0 {
-		r.Sample(map[string]interface{}{"kind": "sweep", "symbology": s.name, "payloads": fmt.Sprintf("%s..%s", odPad(lo, s.payload), odPad(hi-1, s.payload)), "sampled": sample, "height": 1, "forms": "short form, every 8th with check digit; every 4th also through the multi-format reader"})
+		r.Sample(map[string]interface{}{"kind": "sweep", "symbology": s.name, "payloads": fmt.Sprintf("%s..%s", odPad(lo, s.payload), odPad(hi-1, s.payload)), "sampled": sample, "height": 1, "forms": "every payload in the short form, every 8th also with its check digit; every 4th also through the multi-format reader"})
 	}
 }
 
